@@ -153,8 +153,12 @@ def r2(ctx):
               a.guard(fa[0][0]) == frozenset([frozenset()]), "each audit record draws exactly one sequence number from the engine's own counter",
               got=[render(x[2]) for x in fa], key="one-draw")
     rt = a.return_term()
-    ctx.check("Engine::audit", render(rt) == "AuditTick::AuditTick{event: From::from(kind), context: EngineContext::EngineContext{sequence: "
-              "Sequence::fetch_add(self.meta.sequence), time: EngineClock::time(self.clock)}}",
+    # (compared field by field: the declaration order of the fields is not part of the property)
+    tick = common.agg_fields(rt, "AuditTick::AuditTick")
+    cx = common.agg_fields(rt, "EngineContext::EngineContext")
+    ctx.check("Engine::audit", {k: v for k, v in tick.items() if k != "context"} == {"event": "From::from(kind)"} and
+              tick.get("context", "").startswith("EngineContext::EngineContext{") and
+              cx == {"sequence": "Sequence::fetch_add(self.meta.sequence)", "time": "EngineClock::time(self.clock)"},
               "the record carries exactly the drawn number, the engine clock's time and the given payload", got=render(rt)[:240], key="record")
     s = ctx.fibody(name="audit_snapshot", self_adt=ENG, trait=AUD)
     ctx.check("Engine::audit_snapshot", render(s.return_term()) in ("Auditor::audit(self, self.state)", "Engine::audit(self, self.state)"),
@@ -429,6 +433,15 @@ def _from_process(ctx, EA):
     return ctx.ibody(ds[0])
 
 
+def r8(ctx):
+    """'equal once in-flight markers are set aside' relies on what the engine-only markers keep and give back: a cancel-in-flight
+    marker holds the order's last exchange-confirmed data (open_meta), which is what the engine falls back to when the cancel is
+    rejected - the replica, which never sets the marker, still has it (= C01.R5, C01.R6)"""
+    from rules import C01
+    C01.r5(ctx)
+    C01.r6(ctx)
+
+
 RULES = [
     ("R1", "runners: each tick is sent exactly once before the next event / return; terminal or feed-ended tick last; siblings agree", r1),
     ("R2", "sequence: post-increment by one, single caller, snapshot via audit, who-may-write the counters", r2),
@@ -437,4 +450,5 @@ RULES = [
     ("R5", "replica admission: skip old, reject gaps, validation dominates every update", r5),
     ("R6", "the snapshot is taken from the engine before it is moved into the audited runner", r6),
     ("R7", "audit record builders keep the event / outputs / errors; terminality tables; replica state view", r7),
+    ("R8", "engine-only in-flight markers keep the last confirmed order data (= C01.R5, C01.R6)", r8),
 ]
